@@ -64,7 +64,8 @@ PROPS = {
                       "|input|+1 is never exhausted (every nested record reads its version byte first; chunk regions lie inside what is "
                       "left after it; unknown-length loops read a flag byte per turn). The context's arithmetic never panics by itself for "
                       "every program (refinement theorem), primitive reads are total for every requested length, cursors stay in their "
-                      "windows. Every implementation panic / abort / hang / oversized allocation on the families is an oracle failure.",
+                      "windows; the readers of the chrono / big-number wire descriptions are instances (leaf_descriptions_never_panic). "
+                      "Every implementation panic / abort / hang / oversized allocation on the families is an oracle failure.",
         "level_note": "Outside the model: see coverage.partial. Trusted: Lean kernel, model, harness; Miri/ASan not used.",
     },
     "C06": {
